@@ -214,25 +214,40 @@ func discharge(o *Oblig, lits []*Term, workDir string, idx int, tsec int, allAgr
 			ok   bool
 			secs float64
 		}
-		ch := make(chan res, len(qidx))
-		for _, drop := range qidx {
-			go func(drop int) {
+		// every single hypothesis left out, and - when there are few - every pair
+		var drops [][2]int
+		for _, d := range qidx {
+			drops = append(drops, [2]int{d, -1})
+		}
+		if len(qidx) <= 9 {
+			for a := 0; a < len(qidx); a++ {
+				for b := a + 1; b < len(qidx); b++ {
+					drops = append(drops, [2]int{qidx[a], qidx[b]})
+				}
+			}
+		}
+		ch := make(chan res, len(drops))
+		sem := make(chan bool, 12)
+		for _, dr := range drops {
+			go func(dr [2]int) {
+				sem <- true
+				defer func() { <-sem }()
 				o2 := *o
 				o2.Hyps = nil
 				for i, h := range o.Hyps {
-					if i != drop {
+					if i != dr[0] && i != dr[1] {
 						o2.Hyps = append(o2.Hyps, h)
 					}
 				}
-				f2 := fmt.Sprintf("%s.drop%d.smt2", file, drop)
+				f2 := fmt.Sprintf("%s.drop%d_%d.smt2", file, dr[0], dr[1])
 				os.WriteFile(f2, []byte(smtText(&o2, lits, false)), 0o644)
 				first, _, secs := runSolver(backends[0], f2, budget)
 				rmQuery(f2)
 				ch <- res{first == "unsat", secs}
-			}(drop)
+			}(dr)
 		}
 		proved := false
-		for range qidx {
+		for range drops {
 			r := <-ch
 			v.Seconds += r.secs
 			if r.ok {
@@ -641,12 +656,53 @@ func caseSplit(o *Oblig) []*Oblig {
 	}
 	c := terms[best]
 	var out []*Oblig
-	for _, extra := range []*Term{c, mkNot(c)} {
+	for ci, extra := range []*Term{c, mkNot(c)} {
 		oc := *o
-		oc.Hyps = append(append([]*Term(nil), o.Hyps...), extra)
+		// in each case the condition is decided: the if-then-else terms over it are resolved (quantifier patterns containing an
+		// ite do not match)
+		oc.Hyps = nil
+		for _, h := range o.Hyps {
+			oc.Hyps = append(oc.Hyps, resolveIte(h, best, ci == 0))
+		}
+		oc.Hyps = append(oc.Hyps, extra)
+		oc.Goal = resolveIte(o.Goal, best, ci == 0)
+		oc.Axioms = o.Axioms
 		out = append(out, &oc)
 	}
 	return out
+}
+
+// resolveIte replaces every (ite C a b) whose condition prints as cond by a (val) or b (!val).
+func resolveIte(t *Term, cond string, val bool) *Term {
+	if t.Op == "ite" && len(t.Args) == 3 && t.Args[0].String() == cond {
+		if val {
+			return resolveIte(t.Args[1], cond, val)
+		}
+		return resolveIte(t.Args[2], cond, val)
+	}
+	if len(t.Args) == 0 {
+		return t
+	}
+	changed := false
+	args := make([]*Term, len(t.Args))
+	for i, a := range t.Args {
+		args[i] = resolveIte(a, cond, val)
+		if args[i] != a {
+			changed = true
+		}
+	}
+	var pats []*Term
+	for _, p := range t.Pats {
+		np := resolveIte(p, cond, val)
+		if np != p {
+			changed = true
+		}
+		pats = append(pats, np)
+	}
+	if !changed {
+		return t
+	}
+	return &Term{Op: t.Op, Sort: t.Sort, Args: args, UF: t.UF, Lit: t.Lit, Var: t.Var, Bound: t.Bound, Pats: pats}
 }
 
 // isPlainVarName: v<N>_... symbols (fresh values, parameters, call results) as opposed to heap arrays and function symbols.
